@@ -69,7 +69,8 @@ def gen():
     # ---- lexicon.rs: validate_entries / validate_wid / should_index / set_max_conn_sizes
     rel = BUILD + "lexicon.rs"
     t = no_tests(F.strip_comments(F.src(rel)))
-    b = F.fn_body(t, "validate_entries", rel)
+    # checks moved into private helpers of the file are read where they are called (validate_wid itself is read below)
+    b = F.inline_calls(t, F.fn_body(t, "validate_entries", rel), skip=("validate_wid",))
     plain = strip_indexed(b)
     for name in ("left_id", "right_id"):
         out.append(G.coq_list("validate_%s_guards" % name, G.guards_of(plain, {"e." + name: "none"}, rel + ":validate_entries")))
@@ -105,10 +106,13 @@ def gen():
     if not re.search(r"self\.max_left\s*=\s*left\s*;\s*self\.max_right\s*=\s*right\s*;", mb):
         raise F.FactError("set_max_conn_sizes no longer stores (left, right) into (max_left, max_right)")
     wb = F.fn_body(t, "validate_wid", rel)
-    m = re.search(r"if\s+wid\.word\(\)\s*(>=|>)\s*(\w+)\s+as\s+u32\s*\{\s*return\s+Err", wb)
+    # `if test { return Err(..); } Ok(())`  or, as the tail expression,  `if test { Err(..) } else { Ok(()) }`
+    tail = re.search(r"\bif\s+[^{}]*\{\s*Err\((?:[^{}]|\{[^{}]*\})*\}\s*else\s*\{\s*Ok\(\(\)\)\s*\}\s*$", wb)
+    ret = r"\{\s*return\s+Err" if not tail else r"\{\s*Err"
+    m = re.search(r"if\s+wid\.word\(\)\s*(>=|>)\s*(\w+)\s+as\s+u32\s*" + ret, wb)
     if not m:
         # the same test written the other way round: `max as u32 <= wid.word()`
-        mt = re.search(r"if\s+(\w+)\s+as\s+u32\s*(<=|<)\s*wid\.word\(\)\s*\{\s*return\s+Err", wb)
+        mt = re.search(r"if\s+(\w+)\s+as\s+u32\s*(<=|<)\s*wid\.word\(\)\s*" + ret, wb)
         if mt:
             m = re.match(r"(>=|>) (\w+)", "%s %s" % ({"<=": ">=", "<": ">"}[mt.group(2)], mt.group(1)))
     if not m:
@@ -388,5 +392,33 @@ def gen():
             counts[(fn, kind)] = counts.get((fn, kind), 0) + 1
         for (fn, kind), n in sorted(counts.items()):
             rows.append('("%s", "%s", "%s", %d%%N)' % (f, fn, kind, n))
+    # private helpers: functions of a builder file that are not `pub`, defined once, and called from exactly one other
+    # function of that file -- code moved into such a helper is still code of its caller (Model/Build.v counts its sites there
+    # when the helper has no classification of its own)
+    helpers = []
+    for f in ("mod.rs", "lexicon.rs", "conn.rs", "parse.rs", "primitives.rs", "index.rs", "error.rs"):
+        rel_f = BUILD + f
+        tf = no_tests(F.strip_comments(F.src(rel_f)))
+        tf = re.sub(r'"(?:[^"\\\\]|\\\\.)*"', '""', tf)
+        defs = [(m.start(), m.group(1)) for m in re.finditer(r"\bfn\s+([A-Za-z_0-9]+)", tf)]
+        for pos, name in defs:
+            if [n for _, n in defs].count(name) != 1:
+                continue
+            line = tf[tf.rfind("\n", 0, pos) + 1:pos]
+            if re.search(r"\bpub\b", line):
+                continue
+            callers = set()
+            for c in re.finditer(r"(?<![\w])%s\(" % re.escape(name), tf):
+                if c.start() == pos + tf[pos:].index(name):
+                    continue
+                owner = "<top>"
+                for s0, n0 in defs:
+                    if s0 <= c.start():
+                        owner = n0
+                callers.add(owner)
+            callers.discard(name)
+            if len(callers) == 1 and "<top>" not in callers:
+                helpers.append('("%s", "%s", "%s")' % (f, name, callers.pop()))
+    out.append("(* (file, private helper, its only caller) *)\nDefinition build_private_helpers : list (string * string * string) :=\n  [ %s ].\n" % ";\n    ".join(helpers))
     out.append("(* (file, fn, kind, how many) outside test modules *)\nDefinition build_panic_sites : list (string * string * string * N) :=\n  [ %s ].\n" % ";\n    ".join(rows))
     return "".join(out)
